@@ -27,29 +27,32 @@ theorem EPV.OkOrValueError.ite {c : Prop} {inst : Decidable c} {a b : EPV.Out}
   · rw [if_pos hc]; exact ha
   · rw [if_neg hc]; exact hb
 
-/-- with `h : (nested if … ) = .ok` in the context: one goal per accepting path, the path conditions as
-hypotheses, then the given tactic -/
-syntax "epv_ok_split " tacticSeq : tactic
+/-- with `h : (nested if … ) = .ok` in the context and the tree-level definitions of the goal unfolded
+(all of them share the shape of the tree in `h`): one goal per accepting path, the path conditions as
+hypotheses `hc`, the trees of the goal reduced in lockstep by `rw [if_pos hc]` / `rw [if_neg hc]`, then the
+given tactic -/
+syntax "epv_walk " tacticSeq : tactic
 set_option hygiene false in
 macro_rules
-  | `(tactic| epv_ok_split $t) =>
+  | `(tactic| epv_walk $t) =>
     `(tactic| first
-      | (refine Or.elim (EPV.ite_ok h) ?_ ?_ <;> (clear h; rintro ⟨hc, h⟩) <;> epv_ok_split $t)
+      | (refine Or.elim (EPV.ite_ok h) ?_ ?_ <;> (clear h; rintro ⟨hc, h⟩) <;>
+          (try (repeat rw [if_pos hc])) <;> (try (repeat rw [if_neg hc])) <;> epv_walk $t)
       | (cases h; done)
       | ($t))
 
 set_option hygiene false in
-/-- for a hypothesis `h : M.outcome p = .ok`: walk the tree of `outcome` only, discard the non-`ok` paths,
-evaluate every other tree-level definition along the path found, and run the given tactic on each
-accepting path.  Does the same as `epv_on_leaves`, in linear time. -/
+/-- for a hypothesis `h : M.outcome p = .ok`: unfold the tree-level definitions, walk the tree of `outcome`,
+discard the non-`ok` paths and run the given tactic on each accepting path (`epv_on_leaves` in linear
+time; for very deep trees unfold by name with `unfold` and call `epv_walk` directly — `simp only` itself
+is slow on them) -/
 macro "epv_paths " t:tacticSeq : tactic =>
-  `(tactic| (simp only [epv_tree] at h
-             epv_ok_split (simp only [epv_tree, *, if_true, if_false]; ($t))))
+  `(tactic| (simp only [epv_tree] at h ⊢
+             epv_walk ($t)))
 
-/-- goal `M.outcome p = .ok ∨ M.outcome p = .raise "ValueError"` -/
+/-- goal `M.outcome p = .ok ∨ M.outcome p = .raise "ValueError"` with `M.outcome` unfolded -/
 macro "epv_ok_or_valueError" : tactic =>
-  `(tactic| (simp only [epv_tree]
-             show EPV.OkOrValueError _
+  `(tactic| (show EPV.OkOrValueError _
              repeat (first | exact Or.inl rfl | exact Or.inr rfl | apply EPV.OkOrValueError.ite)))
 
 namespace EPV.Blake
